@@ -147,13 +147,19 @@ class Robust(Part):
                 designs.append(rec)
             trace.append({"ev": "batch", "kind": kind, "nparams": n, "userm": um, "designs": designs, "exc": exc})
 
+        intvec = [rng.random() < 0.4]
+
         def lattice_vector():
             if kind == "gradient":
-                v = [rng.randint(-18, 18) * 0.5 for _ in range(n)]
+                v = [rng.randint(-18, 18) * 0.5 for _ in range(n)] if not intvec[0] or rng.random() < 0.3 else [float(rng.randint(-9, 9)) for _ in range(n)]
             else:
                 v = [rng.randint(-int(18 / t), int(18 / t)) * t for t in tols]
             if pinned is not None:
                 v[pinned] = pin
+            if intvec[0] and all(float(c) == int(c) for c in v):
+                v = [int(c) for c in v]         # designs given with Python ints (hand-written start points, integer grids)
+            elif intvec[0] and rng.random() < 0.5:
+                v = [int(c) if float(c) == int(c) else c for c in v]
             return v
 
         if case.get("faulty") and kind == "gradient":
